@@ -335,6 +335,11 @@ func propC15(c *Ctx) {
 		}
 	})
 
+	c.Rule("C15.R6", func() {
+		errorDiscipline(c, "C15.R6", "Keeper.UpdateHostValidatorSet", c.Method(childKeeper, "Keeper", "UpdateHostValidatorSet"), PO{Params: []string{"k", "ctx", "clientID", "height", "vs"}, Visits: 3})
+		errorDiscipline(c, "C15.R6", "L2OracleHandler.UpdateOracle", c.Method(childKeeper, "L2OracleHandler", "UpdateOracle"), PO{Params: []string{"k", "ctx", "height", "bz"}, Visits: 2, NoInline: []string{"ValidateVoteExtensions$1"}, Pure: []string{"ValidateVoteExtensions$1"}})
+	})
+
 	c.Rule("C15.R5", func() {
 		c.writersTable("C15.R5", "opchild/keeper.HostValidatorStore", "validators", setOf("Set"), []string{"(opchild/keeper.HostValidatorStore).SetValidator"})
 		c.writersTable("C15.R5", "opchild/keeper.HostValidatorStore", "validators", setOf("Remove", "Clear"), []string{"(opchild/keeper.HostValidatorStore).DeleteAllValidators"})
